@@ -26,8 +26,9 @@
 (* Source = "enum"    every hierarchy with bases[i] a repetition-free      *)
 (*                    sequence over 1..i-1 (input builder AddClass)        *)
 (*          "members" the same, then every placement of the member         *)
-(*          "late"    the same with one class per module and the modules     *)
-(*                    analysed in every order: bases resolved only in the  *)
+(*          "late"    the same with one class per module, the modules added  *)
+(*                    in every order and at most one TYPE_CHECKING import  *)
+(*                    closing an import cycle: bases resolved only in the  *)
 (*                    second pass, early lookups before they are known     *)
 (*          "graph"   every base graph over MaxN classes incl. cycles (one  *)
 (*                    class per module, plain `import`): conformance of the*)
@@ -37,6 +38,7 @@
 EXTENDS Naturals, Sequences, FiniteSets, TLC, Json, IOUtils
 
 CONSTANTS MaxN, Source, DocStates,
+          LateOrders,    \* "all" | "two": module orders enumerated by Source = "late" (every order / as written and reversed)
           EarlyOrder     \* "allbases" | "c3": what Class.mro() answers BEFORE post-processing (see EarlyMro)
 
 Bad    == <<0>>        \* Python: TypeError "Cannot create a consistent method resolution order"
@@ -52,8 +54,10 @@ PosIn(s, x) == Min({i \in 1..Len(s) : s[i] = x})
 
 FileCases == IF Source = "file" THEN JsonDeserialize(IOEnv.CASE_FILE) ELSE <<>>
 
-VARIABLES cid, n, bases, born, member, phase, fin, k, mro, warn
-vars == <<cid, n, bases, born, member, phase, fin, k, mro, warn>>
+VARIABLES cid, n, bases, born, member, phase, fin, k, mro, warn,
+          lay      \* one class per module: [order |-> modules as added to the system, back |-> <<c, x>>: module c imports
+                   \* module x under `if TYPE_CHECKING:` before anything else (<<0, 0>>: no such import)]
+vars == <<cid, n, bases, born, member, phase, fin, k, mro, warn, lay>>
 
 \* ===================================================================== REFERENCE
 InTail(x, l) == \E i \in 2..Len(l) : l[i] = x
@@ -182,17 +186,41 @@ KF_EarlyLookupBeforeBaseResolved(c) == /\ EarlyOrder = "c3"
                                        /\ (PdEarlyFind(c) # RefFind(c) \/ PdEarlyBase(c) # RefFind(c))
                                        /\ LateAbove(c)
 
+\* ---- the order in which Class objects are created when every class lives in its own module
+\*      (System.process model.py:1461-1465: modules in the order added; visit_Import / visit_ImportFrom ->
+\*      getProcessedModule: a module that is still UNPROCESSED is analysed on the spot, one that is PROCESSING (import
+\*      cycle) or PROCESSED is not).  Module m = [TYPE_CHECKING import of lay.back] ; imports of the bases' modules in
+\*      ascending order ; class m ; early lookups.
+RECURSIVE SortedSeq(_)
+SortedSeq(S) == IF S = {} THEN <<>> ELSE <<Min(S)>> \o SortedSeq(S \ {Min(S)})
+ImportsOf(m, bk) == (IF bk[1] = m THEN <<bk[2]>> ELSE <<>>) \o SortedSeq(Range(bases[m]))
+RECURSIVE Proc(_, _, _), ProcImports(_, _, _, _)
+Proc(m, st, bk) == IF m \in st.started THEN st
+                   ELSE LET st1 == ProcImports(m, 1, [st EXCEPT !.started = @ \cup {m}], bk)
+                        IN [st1 EXCEPT !.created = Append(@, m)]
+ProcImports(m, i, st, bk) == IF i > Len(ImportsOf(m, bk)) THEN st
+                             ELSE ProcImports(m, i + 1, Proc(ImportsOf(m, bk)[i], st, bk), bk)
+RECURSIVE ProcAll(_, _, _)
+ProcAll(order, st, bk) == IF Len(order) = 0 THEN st ELSE ProcAll(Tail(order), Proc(Head(order), st, bk), bk)
+CreatedSeq(order, bk) == ProcAll(order, [started |-> {}, created |-> <<>>], bk).created
+BornOf(order, bk) == [c \in 1..Len(order) |-> PosIn(CreatedSeq(order, bk), c)]
+NoLay == [order |-> <<>>, back |-> <<0, 0>>]
+
 \* ===================================================================== behaviours
 Ident(m) == [i \in 1..m |-> i]
-InitBuild == /\ Source \in {"enum", "members", "late"} /\ cid = 0 /\ n = 0
+InitBuild == /\ Source \in {"enum", "members", "late"} /\ cid = 0 /\ n = 0 /\ lay = NoLay
              /\ bases = <<>> /\ born = <<>> /\ member = <<>> /\ phase = "build"
 InitGraph == /\ Source = "graph" /\ cid = 0 /\ n = MaxN
              /\ bases \in [1..MaxN -> PermSeqs(1..MaxN)]
              /\ \A c \in 1..MaxN : c \notin Range(bases[c])
-             /\ born = Ident(MaxN) /\ member = [i \in 1..MaxN |-> "absent"] /\ phase = "post"
+             /\ lay = [order |-> Ident(MaxN), back |-> <<0, 0>>]
+             /\ born = BornOf(lay.order, lay.back) /\ member = [i \in 1..MaxN |-> "absent"] /\ phase = "post"
 InitFile == /\ Source = "file" /\ cid \in 1..Len(FileCases)
             /\ n = Len(FileCases[cid].bases)
-            /\ bases = FileCases[cid].bases /\ born = FileCases[cid].born /\ member = FileCases[cid].member
+            /\ bases = FileCases[cid].bases /\ member = FileCases[cid].member
+            \* born = <<>> in the file: one class per module, modules added in the order 1..n
+            /\ lay = IF Len(FileCases[cid].born) = 0 THEN [order |-> Ident(n), back |-> <<0, 0>>] ELSE NoLay
+            /\ born = IF Len(FileCases[cid].born) = 0 THEN BornOf(Ident(n), <<0, 0>>) ELSE FileCases[cid].born
             /\ phase = "post"
 Init == /\ (InitBuild \/ InitGraph \/ InitFile)
         /\ fin = {} /\ k = 0 /\ mro = [i \in 1..n |-> <<>>] /\ warn = [i \in 1..n |-> "none"]
@@ -202,11 +230,18 @@ AddClass == /\ phase = "build" /\ n < MaxN
             /\ \E b \in PermSeqs(1..n) : bases' = Append(bases, b)
             /\ n' = n + 1 /\ born' = Append(born, n + 1) /\ member' = Append(member, "absent")
             /\ mro' = Append(mro, <<>>) /\ warn' = Append(warn, "none")
-            /\ UNCHANGED <<cid, phase, fin, k>>
+            /\ UNCHANGED <<cid, phase, fin, k, lay>>
 Built == /\ phase = "build" /\ n = MaxN
          /\ IF Source \in {"members", "late"} THEN member' \in [1..n -> DocStates] ELSE UNCHANGED member
-         \* "late": one class per module, the modules analysed in any order (born = rank of the class's module)
-         /\ IF Source = "late" THEN born' \in {p \in [1..n -> 1..n] : Inj(p)} ELSE UNCHANGED born
+         \* "late": one class per module, the modules added in any order, at most one TYPE_CHECKING import (which may
+         \* close an import cycle: the only way a base is still unknown when its subclass is analysed)
+         /\ IF Source = "late"
+              THEN /\ \E o \in {p \in [1..n -> 1..n] : Inj(p)}, b \in {<<0, 0>>} \cup {<<c, x>> : c \in 1..n, x \in 1..n} :
+                        /\ (b[1] # b[2] \/ b = <<0, 0>>)
+                        /\ (LateOrders = "two" => (o = Ident(n) \/ o = [i \in 1..n |-> n + 1 - i]))
+                        /\ lay' = [order |-> o, back |-> b]
+                   /\ born' = BornOf(lay'.order, lay'.back)
+              ELSE UNCHANGED <<born, lay>>
          /\ phase' = "post"
          /\ UNCHANGED <<cid, n, bases, fin, k, mro, warn>>
 \* defaultPostProcess (model.py:1486-1489): classes in creation order, cls._init_mro()
@@ -217,9 +252,9 @@ PostStep == /\ phase = "post" /\ k < n
                   /\ warn' = [warn EXCEPT ![c] = r.warn]
                   /\ fin' = r.fin
             /\ k' = k + 1
-            /\ UNCHANGED <<cid, n, bases, born, member, phase>>
+            /\ UNCHANGED <<cid, n, bases, born, member, phase, lay>>
 PostDone == /\ phase = "post" /\ k = n /\ phase' = "done"
-            /\ UNCHANGED <<cid, n, bases, born, member, fin, k, mro, warn>>
+            /\ UNCHANGED <<cid, n, bases, born, member, fin, k, mro, warn, lay>>
 Next == AddClass \/ Built \/ PostStep \/ PostDone
 Spec == Init /\ [][Next]_vars
 
@@ -252,7 +287,7 @@ RefSourcesE(c) == IF Consistent(c) /\ Defines(c) THEN RefSources(c) ELSE <<>>
 RefDocE(c) == IF Consistent(c) /\ Defines(c) THEN RefDocOwner(c) ELSE 0
 PdSourcesE(c) == IF Defines(c) THEN PdSources(c) ELSE <<>>
 PdDocE(c) == IF Defines(c) THEN PdDocOwner(c) ELSE 0
-Emit == Done => PrintT(ToJson([cid |-> cid, n |-> n, bases |-> bases, born |-> born, member |-> member,
+Emit == Done => PrintT(ToJson([cid |-> cid, n |-> n, bases |-> bases, born |-> born, member |-> member, lay |-> lay,
                                c3 |-> PerClass(RefMro), own |-> PerClass(OwnInconsistent),
                                mro |-> mro, warn |-> warn,
                                find_ref |-> PerClass(RefFindE), find_pd |-> PerClass(PdFind),
